@@ -61,6 +61,12 @@ def lemmas(tier):
     for k, name in ((1, "Range"), (2, "Location")):
         for which in (0, 1):
             out.append(xh.Lemma("eqmut_%d_%d" % (k, which), six, ["return V.container_eq_after_assignment(%d, a, b, c, d, e, f, %d)" % (k, which)], pre=_pre("abcdef"), meta={"site": "%s == / != after a nested %s position was compared and then assigned" % (name, ("start", "end")[which])}))
+    g2 = [("gl", "int"), ("gr", "int")]
+    gpre = ["0 <= gl < 3", "0 <= gr < 3", "gl + gr > 0"]
+    for op in ("lt", "le", "gt", "ge", "eq", "ne"):
+        out.append(xh.Lemma("opg_%s" % op, four + g2, ["return V.op_agrees_guises(%r, a, b, c, d, gl, gr)" % op], pre=_pre("abcd") + gpre, meta={"site": "Position %s vs tuple order when an operand is an instance of a stateless subclass or is weakly referenced" % op}))
+    for k, name in ((1, "Range"), (2, "Location")):
+        out.append(xh.Lemma("eqg_%d" % k, six + g2 + [("gi", "int")], ["return V.container_eq_guises(%d, a, b, c, d, e, f, gl, gr, gi)" % k], pre=_pre("abcdef") + ["0 <= gl < 3", "0 <= gr < 3", "0 <= gi < 3", "gl + gr + gi > 0"], meta={"site": "%s == / != structural when an operand or a nested component is an instance of a stateless subclass or is weakly referenced" % name}))
     for k, name in ((1, "Range"), (2, "Location")):
         out.append(xh.Lemma("unordered_%d" % k, four, ["return V.unordered_same_type(%d, a, b, c, d)" % k], pre=_pre("abcd"), meta={"site": "%s has no order" % name}))
     return out
@@ -344,7 +350,7 @@ def check(tier):
     fns = [L.Position.__eq__, L.Position.__gt__, L.Position.__lt__, L.Position.__le__, L.Position.__ge__, L.Position.__repr__, L.Range.__eq__, L.Range.__repr__, L.Location.__eq__, L.Location.__repr__]
     chk.ev.coverage["functions_encoded"] = [evidence.fn_ref(f) for f in fns]
     chk.ev.coverage["bounds"] = {"line/character": "all ints in [0, 2^31-1] (z3 Int)", "uri": "len <= %d in the equality lemma; unconstrained z3 String in the repr query" % (8 if tier == "quick" else 16), "histories": "one earlier comparison (all six operators) followed by one assignment of line and character to either operand / nested position", "unrelated operands": "int (unbounded), str (len <= 6), tuple, list, None, instances of the two other classes"}
-    chk.ev.coverage["outside_bounds"] = ["operands that are subclasses of Position/Range/Location", "uri longer than the bound in the equality lemma"]
+    chk.ev.coverage["outside_bounds"] = ["subclasses of Position/Range/Location that add state or override the comparison methods", "uri longer than the bound in the equality lemma"]
     chk.ev.coverage["rule"] = "one lemma per operator / per (class x unrelated operand kind); non-trivial = reachability twin violated"
     chk.ev.coverage["explanation"] = (
         "CrossHair executes the real dunder methods (including the functools.total_ordering wrappers) on symbolic uintegers and compares with tuple order; "
